@@ -1,10 +1,13 @@
 """Shared result/evidence plumbing for all engines."""
 import json, os, time, tempfile, shutil, atexit, hashlib
 
-VERIF = '/verif'
-REPO = '/repo'
+VERIF = os.environ.get('VERIF_DEV_ROOT', '/verif')    # VERIF_DEV_ROOT: development copy of this tree (tools/triage.sh)
+# registered commands always run against /repo; VERIF_TRIAGE_REPO is a development aid (tools/triage.sh) that points the
+# same checks at a scratch copy and diverts evidence/replays to a scratch directory
+REPO = os.environ.get('VERIF_TRIAGE_REPO', '/repo')
+OUT = os.environ.get('VERIF_TRIAGE_OUT', VERIF)
 PY = '/verif/.venv/bin/python'
-NCPU = min(16, os.cpu_count() or 4)
+NCPU = min(int(os.environ.get('VERIF_NCPU', 16)), os.cpu_count() or 4)
 
 _scratch = None
 
@@ -20,7 +23,7 @@ def scratch():
 
 def sub_env(extra=None):
     env = dict(os.environ)
-    env['PYTHONPATH'] = '/verif:/repo'
+    env['PYTHONPATH'] = VERIF + ':' + REPO
     env['PYTHONDONTWRITEBYTECODE'] = '1'
     env['PYTHONWARNINGS'] = 'ignore'
     env['MAHMOUD_CLASTIC_VERIF'] = '1'
@@ -96,7 +99,7 @@ def open_findings(prop, obligation=None):
 
 
 def write_replay(prop, name, payload):
-    d = os.path.join(VERIF, 'replays')
+    d = os.path.join(OUT, 'replays')
     os.makedirs(d, exist_ok=True)
     h = hashlib.sha1(json.dumps(payload, sort_keys=True, default=str).encode()).hexdigest()[:10]
     p = os.path.join(d, '%s_%s_%s.json' % (prop, name.replace('/', '_')[:40], h))
@@ -106,7 +109,7 @@ def write_replay(prop, name, payload):
 
 
 def write_evidence(res, tier, seed, wall, level='model_checking', technique=''):
-    os.makedirs(os.path.join(VERIF, 'evidence'), exist_ok=True)
+    os.makedirs(os.path.join(OUT, 'evidence'), exist_ok=True)
     cov = {
         'evaluations': max(1, int(res.evaluations)),
         'distinct_nontrivial': int(res.nontrivial),
@@ -150,7 +153,7 @@ def write_evidence(res, tier, seed, wall, level='model_checking', technique=''):
         'wall_s': round(wall, 2),
         'violations': len(res.violations),
     }
-    p = os.path.join(VERIF, 'evidence', '%s.json' % res.prop)
+    p = os.path.join(OUT, 'evidence', '%s.json' % res.prop)
     tmp = p + '.tmp'
     with open(tmp, 'w') as f:
         json.dump(ev, f, indent=1, default=str)
